@@ -213,6 +213,124 @@ Definition glue_starget (a o : list value) : option verdict :=
   | _, _ => None
   end.
 
+(* ---------- ke.overlap: two or three FetchData calls on one Fetcher that overlap in time; the
+   peer holds the first connection in the middle of its message until the other calls have
+   been issued.  args: the scripts in the order in which connections reach the peer, where the
+   first message pauses, the number of calls; outs: the calls' results, what the peer saw of
+   each connection (arrival order), the fetcher's data afterwards.  The model serialises the
+   calls (lock); which call gets the lock first is free, so every order is tried ---------- *)
+
+Record callobs := { c_err : Z; c_data : kdata }.
+Record connobs := { cn_hs : bool; cn_neg : bytes; cn_c2s : bytes; cn_s2c : bytes }.
+
+Definition dec_data (l : list value) : option kdata :=
+  match l with
+  | [VB c2s; VB s2c; VB server; VZ port; VZ algo; VL cookies] =>
+    match getBs cookies with
+    | Some cs => Some {| k_c2s := c2s; k_s2c := s2c; k_server := server; k_port := port; k_cookies := cs; k_algo := algo |}
+    | None => None
+    end
+  | _ => None
+  end.
+
+Definition dec_call (v : value) : option callobs :=
+  match v with
+  | VL (VZ e :: rest) => match dec_data rest with Some d => Some {| c_err := e; c_data := d |} | None => None end
+  | _ => None
+  end.
+
+Definition dec_conn (v : value) : option connobs :=
+  match v with
+  | VL [VZ hs; VB neg; VB c2s; VB s2c] => Some {| cn_hs := negb (hs =? 0); cn_neg := neg; cn_c2s := c2s; cn_s2c := s2c |}
+  | _ => None
+  end.
+
+Fixpoint dec_all {A} (f : value -> option A) (l : list value) : option (list A) :=
+  match l with
+  | [] => Some []
+  | v :: r => match f v, dec_all f r with Some x, Some xs => Some (x :: xs) | _, _ => None end
+  end.
+
+Definition dummy_script : script :=
+  {| sc_mode := 1; sc_alpn := []; sc_recs := []; sc_tail := []; sc_cut := 0; sc_host := [] |}.
+
+Definition mk_fobs (conns : Z) (cn : option connobs) (c : callobs) : fobs :=
+  match cn with
+  | Some x => {| o_conns := conns; o_hs_ok := cn_hs x; o_negotiated := cn_neg x; o_peer_c2s := cn_c2s x;
+                 o_peer_s2c := cn_s2c x; o_err := c_err c; o_data := c_data c |}
+  | None => {| o_conns := conns; o_hs_ok := false; o_negotiated := []; o_peer_c2s := []; o_peer_s2c := [];
+               o_err := c_err c; o_data := c_data c |}
+  end.
+
+(* the calls in one order: a call made while the previous result left cookies is taken to be
+   answered from the pool, any other call to have caused the next connection *)
+Fixpoint attribute (pool_left : bool) (calls : list callobs) (scs : list script) (conns : list connobs)
+  : option (list op * list fobs) :=
+  match calls with
+  | [] => match conns with [] => Some ([], []) | _ => None end
+  | c :: rest =>
+    let next_pool := if c_err c =? 0 then match tl (k_cookies (c_data c)) with [] => false | _ => true end else false in
+    if pool_left then
+      match attribute next_pool rest scs conns with
+      | Some (ops, obs) => Some (OpFetch dummy_script :: ops, mk_fobs 0 None c :: obs)
+      | None => None
+      end
+    else
+      match scs with
+      | [] => None
+      | sc :: scs' =>
+        match conns with
+        | cn :: conns' =>
+          match attribute next_pool rest scs' conns' with
+          | Some (ops, obs) => Some (OpFetch sc :: ops, mk_fobs 1 (Some cn) c :: obs)
+          | None => None
+          end
+        | [] =>
+          match attribute next_pool rest scs' [] with
+          | Some (ops, obs) => Some (OpFetch sc :: ops, mk_fobs 0 None c :: obs)
+          | None => None
+          end
+        end
+      end
+  end.
+
+Fixpoint insert_all {A} (x : A) (l : list A) : list (list A) :=
+  match l with
+  | [] => [[x]]
+  | y :: r => (x :: l) :: map (cons y) (insert_all x r)
+  end.
+
+Fixpoint perms {A} (l : list A) : list (list A) :=
+  match l with
+  | [] => [[]]
+  | x :: r => flat_map (insert_all x) (perms r)
+  end.
+
+Fixpoint somes {A} (l : list (option A)) : list A :=
+  match l with [] => [] | Some x :: r => x :: somes r | None :: r => somes r end.
+
+Definition enc_data (d : kdata) : value :=
+  VL [VB (k_c2s d); VB (k_s2c d); VB (k_server d); VZ (k_port d); VZ (k_algo d); VL (map VB (k_cookies d))].
+
+(* does the model, run over the calls in this order, produce these results and this final state? *)
+Definition cand_model (final : kdata) (c : list op * list fobs) : bool :=
+  let ms := mops_of (map (fun o => (o, [])) (fst c)) (snd c) in
+  values_eqb (map enc_obs (model_run false kzero ms)) (map enc_obs (snd c))
+  && value_eqb (enc_data (model_final false kzero ms)) (enc_data final).
+
+Definition glue_overlap (a o : list value) : option verdict :=
+  match a, o with
+  | [VL ops; VZ _; VZ _], [VL calls; VL conns; VL final] =>
+    match dec_ops ops, dec_all dec_call calls, dec_all dec_conn conns, dec_data final with
+    | Some ops', Some calls', Some conns', Some final' =>
+      let scs := flat_map (fun x => match fst x with OpFetch sc => [sc] | OpStore _ => [] end) ops' in
+      let cands := somes (map (fun p => attribute false p scs conns') (perms calls')) in
+      Some (relational (existsb (cand_model final') cands) (C20_overlap_ok false cands final'))
+    | _, _, _, _ => None
+    end
+  | _, _ => None
+  end.
+
 (* ---------- ke.own: the project's own key-exchange server ---------- *)
 
 (* quic: ke.ownq, the QUIC/SCION key-exchange server (StartNTSKEServerSCION) and a Fetcher with
@@ -237,6 +355,8 @@ Definition glue_C20 (k : string) (a o : list value) : option verdict :=
     match glue_target a o with Some v => Some v | None => Some (relational false true) end
   else if is k "ke.starget" then
     match glue_starget a o with Some v => Some v | None => Some (relational false true) end
+  else if is k "ke.overlap" then
+    match glue_overlap a o with Some v => Some v | None => Some (relational false true) end
   else if is k "ke.own" then
     match glue_own false a o with Some v => Some v | None => Some (relational false true) end
   else if is k "ke.ownq" then
